@@ -16,6 +16,10 @@
      KCMD fault stdinhex argvtok...      -> rc stdouthex stderrhex        (co-process: acts on the held state)
      SESSION cfg(12) cut faults state(6) -> outcome ncmds fin_at started py | events | final state
         faults = i,j,k or "-" ; events = rc:argv(.)[:stdinhex] or M:name, joined by blanks
+     CHAINEX namehex table               -> line byte      (1|0 each: chain_in_listing name (listing T), i.e. the session
+                                            model's line-by-line test, and chain_in_output name (join_lines (listing T)),
+                                            i.e. decode('ASCII','replace') + split at line feeds on the raw bytes)
+     LISTING table                       -> hex of the bytes `iptables -nL` prints for the table
      SUBCLASS a b                        -> 1|0          (Model/FwLog.v: issubclass(a, b))
      SWALLOWS a                          -> 1|0          (log_swallows: named by helpers.log's except clauses)
      LOGCALL mode i0 cls both nlines     -> RETURN | ESCAPE cls      (one call of helpers.log)
@@ -154,6 +158,10 @@ let handle = function
              (String.concat "." (List.map str_of_tok r.r_py.py_tokens))
              (String.concat " " (List.map event_str r.r_events)) (str_of_state r.r_final)
        | _ -> "ERROR bad session")
+  | ["CHAINEX"; name; tb] ->
+      let t = table_of tb and n = tok_of name in
+      s01 (chain_in_listing n (listing t)) ^ " " ^ s01 (chain_in_output n (join_lines (listing t)))
+  | ["LISTING"; tb] -> hex_of_bytes (join_lines (listing (table_of tb)))
   | ["SUBCLASS"; a; b] -> s01 (subclass (cls_of a) (cls_of b))
   | ["SWALLOWS"; a] -> s01 (log_swallows (cls_of a))
   | ["LOGCALL"; mode; i0; cls; both; nl] ->
